@@ -28,6 +28,28 @@ FMAX = int(F(struct.unpack(">d", bytes.fromhex("7fefffffffffffff"))[0]))
 
 # ----------------------------------------------------------------------------- concretisation
 
+# the alphabet of ValueOrder.tla (texts, attribute names): code -> character.  Ascending code points = ascending UTF-8 bytes.
+CHARS = {1: "\u0000", 2: "A", 3: "a", 4: "b", 5: "\u00e9", 6: "\uff5e", 7: "\U00010000"}
+_cs = [CHARS[c] for c in sorted(CHARS)]
+assert all(ord(x) < ord(y) for x, y in zip(_cs, _cs[1:])) and all(x.encode() < y.encode() for x, y in zip(_cs, _cs[1:]))
+CHAR_NAMES = {1: "\\0", 2: "A", 3: "a", 4: "b", 5: "\\u00e9", 6: "\\uff5e", 7: "\\U10000"}
+
+
+def text_of(codes):
+    return "".join(CHARS[c] for c in codes)
+
+
+def text_label(codes):
+    out, i = [], 0
+    while i < len(codes):
+        j = i
+        while j < len(codes) and codes[j] == codes[i]:
+            j += 1
+        out.append(CHAR_NAMES[codes[i]] * (j - i) if j - i < 4 else "%s^%d" % (CHAR_NAMES[codes[i]], j - i))
+        i = j
+    return "".join(out)
+
+
 def big(g):
     if g == 0:
         return 0
@@ -81,7 +103,7 @@ def label(v):
     if k == "bool":
         return "true" if v["b"] else "false"
     if k == "text":
-        return "'" + "".join(chr(96 + c) for c in v["s"]) + "'"
+        return "'" + text_label(v["s"]) + "'"
     if k == "data":
         return "blob[" + " ".join("%02x" % (c - 1) for c in v["d"]) + "]"
     if k == "f64":
@@ -93,7 +115,7 @@ def label(v):
             s += ".0"
         return s + "_f64"
     if k == "record":
-        a = "".join("@%s(%s)" % ("".join(chr(96 + c) for c in at["name"]), label(at["value"])) for at in v["attrs"])
+        a = "".join("@%s(%s)" % (text_label(at["name"]) or "''", label(at["value"])) for at in v["attrs"])
         i = ",".join((label(it["key"]) + ":" if it["slot"] else "") + label(it["value"]) for it in v["items"])
         return a + "{" + i + "}"
     return num_label(v) + "_" + k
@@ -129,14 +151,14 @@ def descriptor(v):
     if k == "bool":
         return {"k": "bool", "v": v["b"]}
     if k == "text":
-        return {"k": "text", "v": "".join(chr(96 + c) for c in v["s"])}
+        return {"k": "text", "v": text_of(v["s"])}
     if k == "data":
         return {"k": "data", "v": [c - 1 for c in v["d"]]}
     if k == "f64":
         return {"k": "f64", "bits": f64_bits(v)}
     if k == "record":
         return {"k": "record",
-                "attrs": [{"name": "".join(chr(96 + c) for c in a["name"]), "value": descriptor(a["value"])} for a in v["attrs"]],
+                "attrs": [{"name": text_of(a["name"]), "value": descriptor(a["value"])} for a in v["attrs"]],
                 "items": [dict(([("key", descriptor(i["key"]))] if i["slot"] else []) + [("value", descriptor(i["value"]))])
                           for i in v["items"]]}
     x = exact(v)
@@ -196,11 +218,29 @@ def observe(pool, ops, wd, tag="obs"):
     return res
 
 
-def table_of(pool, res):
+def in_triples(v, tier):
+    """quick: the triple laws run over the pool without the records that only put a boundary text into a position
+    (attribute name / slot key / item); all PAIRS are always evaluated"""
+    if tier != "quick" or v["k"] != "record":
+        return 1
+    def text_only(r):
+        if len(r["attrs"]) == 1 and not r["items"] and r["attrs"][0]["value"]["k"] == "extant" and r["attrs"][0]["name"] not in ([3], [4]):
+            return True
+        if not r["attrs"] and len(r["items"]) == 1:
+            it = r["items"][0]
+            if it["slot"] and it["key"]["k"] == "text":
+                return True
+            if not it["slot"] and it["value"]["k"] == "text":
+                return True
+        return False
+    return 0 if text_only(v) else 1
+
+
+def table_of(pool, res, tier="thorough"):
     classes = {}
     hs = [classes.setdefault(h, len(classes) + 1) for h in res["hash"]]
     eq = [[(1 if x is True else 0 if x is False else 9) for x in row] for row in res["eq"]]
-    return {"pool": pool, "eq": eq, "cmp": res["cmp"], "hash": hs}
+    return {"pool": pool, "eq": eq, "cmp": res["cmp"], "hash": hs, "tri": [in_triples(v, tier) for v in pool]}
 
 
 def evaluate(table, wd, triples=True, tag="mc", workers=4):
@@ -371,7 +411,7 @@ def run(tier, out):
     core.build_harness("h_core", "valueorder")
     pool, labels, gen = enumerate_pool(tier, wd)
     res = observe(pool, [], wd)
-    table = table_of(pool, res)
+    table = table_of(pool, res, tier)
     r = evaluate(table, wd)
     fails, drift, monly = r.tagged.get("FAIL", []), r.tagged.get("DRIFT", []), r.tagged.get("MONLY", [])
     hits, viol = triage(pool, labels, fails, out, table, res, "pool of %d" % len(pool))
